@@ -166,6 +166,11 @@ class E2E(Prop):
             m = dict(stage=0, proto=sc["proto"], slave=slave, req=mb.show_req(sc["req"]), svc=svc_token(sc["reply"]),
                      typed=sc.get("typed", False), allcomp=sc.get("allcomp", False), first_slave=sc["slave"], nops=len(ops), npre=len(sc.get("pre", [])))
             cs.append(Case(cligen.cli_line(sc["proto"], sc["slave"], ops), m))
+        # what a service is handed may borrow its payload; the owned copy it keeps (Request::into_owned, SlaveRequest::into_owned) is equal
+        if self.id == "C01":
+            for _ in range(300 if tier == "quick" else 3000):
+                req = mb.rnd_req(rng)
+                cs.append(Case("OWN %d %s" % (rng.randrange(256), mb.show_req(req)), {"stage": "own"}))
         # spread the (slower) direct cases evenly
         step = max(1, len(cs) // (len(direct) + 1))
         for i, d in enumerate(direct):
@@ -174,7 +179,7 @@ class E2E(Prop):
 
     def followup(self, cases, rng, tier):
         out = []
-        st = max((c.meta.get("stage", 0) for c in cases if c.meta.get("stage") != "direct"), default=0)
+        st = max((c.meta.get("stage", 0) for c in cases if isinstance(c.meta.get("stage", 0), int)), default=0)
         for c in cases:
             m = c.meta
             if m.get("stage") != st or m.get("ser"):
